@@ -539,6 +539,15 @@ def rule_mut_self(text, ctx):
     return head + '{ let mut verif_me = verif_self;' + body
 
 
+def rule_str_tail(text, ctx):
+    """R24: `unsafe { H.get_unchecked(P..) }.chars()` -> `verif_str_tail_chars(H, P)` (external_body wrapper, body = original expression;
+    its precondition is the safety condition of str::get_unchecked)"""
+    def f(m):
+        ctx.note('R24', m.group(0), 'verif_str_tail_chars(%s, %s)' % (m.group(1), m.group(2)))
+        return 'verif_str_tail_chars(%s, %s)' % (m.group(1), m.group(2))
+    return re.sub(r'unsafe \{ ([\w\.\(\)]+?)\.get_unchecked\(([\w\.]+)\.\.\) \}\.chars\(\)', f, text)
+
+
 def rule_into_iter(text, ctx):
     """R22: `for PAT in patvals {` (a by-value generic `I: IntoIterator` parameter) -> `for PAT in verif_into_iter(patvals) {`
     (external_body wrapper, body = `patvals.into_iter()`, which is what the `for` desugaring calls)"""
@@ -693,6 +702,8 @@ def apply_fn(text, spec, ctx, assoc_types=None, canary=False):
         text = rule_into_iter(text, ctx)
     if 'R23' in spec.rules:
         text = rule_mut_self(text, ctx)
+    if 'R24' in spec.rules:
+        text = rule_str_tail(text, ctx)
     text = rule_get_unchecked(text, ctx)
     text = rule_debug_assert(text, ctx)
     if 'R8c' in spec.rules:
